@@ -251,11 +251,39 @@ def gen_table(rnd, n, style):
     return known, lo, hi
 
 
+def wide_game_case(res, rnd, prop: str, n: int = 17):
+    """One game with more than 16 players (coalition ids beyond two bytes), real code only: v(S) = Σ_{i∈S} w_i + |S|² has the
+    closed-form Shapley value φ_i = w_i + n; two single-player calls (lowest and highest player) are compared with it."""
+    import numpy as np
+    from incomplete_cooperative.game import IncompleteCooperativeGame
+    from incomplete_cooperative.shapley import compute_shapley_value_for_player
+    w = [rnd.randint(-5, 5) for _ in range(n)]
+    ids = np.arange(2 ** n)
+    vals = np.zeros(2 ** n)
+    size = np.zeros(2 ** n)
+    for i in range(n):
+        bit = (ids >> i) & 1
+        vals += bit * w[i]
+        size += bit
+    vals += size ** 2
+    g = IncompleteCooperativeGame(n)
+    g.set_values(vals)
+    for i in (0, n - 1):
+        r = call(compute_shapley_value_for_player, i, g)
+        res.evaluations += 1
+        res.count(f"{prop}:n={n}(closed form)")
+        if r[0] != "ok" or abs(float(r[1]) - (w[i] + n)) > 1e-6 * n:
+            res.violation(f"Shapley value of player {i} in a {n}-player game (v = Σ w_i + |S|², φ_i = w_i + n) is wrong beyond float rounding",
+                          {"n": n, "weights": w, "game": "v(S) = sum of w_i over S + |S|^2", "player": i,
+                           "reported": repr(r[1]) if r[0] == "ok" else r[0], "expected": w[i] + n}, key=f"{prop}:wide-game")
+
+
 def run_c05(tier, budget, rnd, res, script, post):
     from incomplete_cooperative.coalitions import Coalition
     from incomplete_cooperative.exploitability import MaxGainGame, compute_exploitability
     from incomplete_cooperative.shapley import compute_shapley_value_for_player
     StubGame, StubIncomplete = make_stubs()
+    wide_game_case(res, rnd, "C05")          # the per-player Shapley values are the building block of exploitability
     nmax = 6 if tier == "quick" else 8
     per_n = 150 if tier == "quick" else 1200
     for n in range(1, nmax + 1):
@@ -410,6 +438,9 @@ def run_c06(tier, budget, rnd, res, script, post):
     # a large player count comes FIRST and out of ascending order (12 before the small ones; thorough also 10 → 13 → 11):
     # per-process tables that grow with n (factorials, memoised structures) are then extended by several entries at once
     big = [12] if tier == "quick" else [12, 10, 13, 11]
+    wide_game_case(res, rnd, "C06", 17)
+    if tier != "quick":
+        wide_game_case(res, rnd, "C06", 18)
     for n in big + list(range(1, nmax + 1)):
         N = 2 ** n
         count = (1 if tier == "quick" else 3) if n > nmax else (per_n if n <= 5 else (per_n // 4 if n == 6 else per_n // 20))
